@@ -94,3 +94,198 @@ Section Profile.
     apply unmarshal_marshal.
   Qed.
 End Profile.
+
+(* ==== the buffer pool as state: histories of sends and receives ================================= *)
+Definition pool_inv (p : pool) : Prop := Forall (fun b => b = []) p.
+
+Lemma remove_nth_inv {A} (P : A -> Prop) : forall n l, Forall P l -> Forall P (remove_nth n l).
+Proof.
+  induction n as [|n IH]; intros [|x l] H; cbn [remove_nth]; try constructor.
+  - inversion H; assumption.
+  - inversion H; assumption.
+  - apply IH. inversion H; assumption.
+Qed.
+
+Lemma pool_get_inv pick p : pool_inv p -> fst (pool_get pick p) = [] /\ pool_inv (snd (pool_get pick p)).
+Proof.
+  intros H. unfold pool_get. destruct (nth_error p pick) as [b|] eqn:E; cbn [fst snd].
+  - split; [|apply remove_nth_inv; assumption].
+    unfold pool_inv in H. rewrite Forall_forall in H. apply H. eapply nth_error_In; eassumption.
+  - split; [reflexivity | assumption].
+Qed.
+
+Lemma return_buffer_inv b p : pool_inv p -> pool_inv (return_buffer b p).
+Proof. intros. constructor; [reflexivity | assumption]. Qed.
+
+Lemma pool_clean_inv p : pool_clean p = true <-> pool_inv p.
+Proof.
+  unfold pool_clean, pool_inv. rewrite forallb_forall, Forall_forall.
+  split; intros H b Hb; specialize (H b Hb); destruct b; (reflexivity || discriminate).
+Qed.
+
+Section PoolPath.
+  Variable packet : Type.
+  Variable marshal : packet -> list Z.
+  Variable unmarshal : list Z -> res packet.
+  Variable ws : list wrapper.
+  Variable t : tr.
+
+  Notation wr := (write_packet packet marshal ws t).
+  Notation rd := (read_packet packet unmarshal ws t true).
+
+  (* every return path of writePacket leaves only empty buffers in the pool *)
+  Lemma write_packet_inv enc pick p n : pool_inv p -> pool_inv (fst (wr enc pick p n)).
+  Proof.
+    intros H. unfold write_packet. destruct (direct ws t); [assumption|].
+    destruct (pool_get_inv pick p H) as [_ H1]. destruct (pool_get pick p) as [b p1]. cbn [fst snd] in *.
+    apply return_buffer_inv. assumption.
+  Qed.
+
+  (* ... and it sends the pure encoding: the buffer it took was empty *)
+  Lemma write_packet_pure enc pick p n : pool_inv p ->
+    snd (wr enc pick p n) = if direct ws t then marshal n else enc (wrap_stack ws (marshal n)).
+  Proof.
+    intros H. unfold write_packet. destruct (direct ws t); [reflexivity|].
+    destruct (pool_get_inv pick p H) as [Hb _]. destruct (pool_get pick p) as [b p1]. cbn [fst snd] in *.
+    subst b. reflexivity.
+  Qed.
+
+  (* every return path of readPacket - stream empty, transform failed (with whatever it had already
+     written), unwrap or unmarshal failed, success - for ANY bytes on the connection *)
+  Lemma read_packet_inv pick1 pick2 p conn : pool_inv p -> pool_inv (fst (fst (rd pick1 pick2 p conn))).
+  Proof.
+    intros H. unfold read_packet. destruct (direct ws t).
+    { destruct (unmarshal conn); assumption. }
+    destruct (pool_get_inv pick1 p H) as [_ H1]. destruct (pool_get pick1 p) as [b p1]. cbn [fst snd] in *.
+    destruct (is_nil conn). { cbn [fst]. apply return_buffer_inv. assumption. }
+    assert (F : forall buf pl, pool_inv pl ->
+      pool_inv (fst (fst (match (do plain <- unwrap_stack ws buf; unmarshal plain) with
+                          | Ok n => (return_buffer buf pl, ROk, Ok n)
+                          | r => (return_buffer buf pl, RLater, r)
+                          end)))).
+    { intros buf pl Hpl. destruct (do plain <- unwrap_stack ws buf; unmarshal plain); cbn [fst];
+        apply return_buffer_inv; assumption. }
+    destruct t as [|s|server ds]; [apply F; assumption | |].
+    - destruct (pool_get_inv pick2 p1 H1) as [_ H2]. destruct (pool_get pick2 p1) as [o p2]. cbn [fst snd] in *.
+      destruct (tr_read (TB64 s) (b ++ conn)) as [out ok]. destruct ok.
+      + apply F. apply return_buffer_inv. assumption.
+      + cbn [fst]. apply return_buffer_inv, return_buffer_inv. assumption.
+    - destruct (pool_get_inv pick2 p1 H1) as [_ H2]. destruct (pool_get pick2 p1) as [o p2]. cbn [fst snd] in *.
+      destruct (tr_read (TDns server ds) (b ++ conn)) as [out ok]. destruct ok.
+      + apply F. apply return_buffer_inv. assumption.
+      + cbn [fst]. apply return_buffer_inv, return_buffer_inv. assumption.
+  Qed.
+
+  Lemma tr_read_dec w y : tr_dec t w = Ok y -> tr_read t w = (y, true).
+  Proof.
+    destruct t as [|s|server ds]; cbn [tr_dec tr_read]; intros H.
+    - injection H as <-. reflexivity.
+    - rewrite H. reflexivity.
+    - rewrite H, (dns_out_ok _ _ H). reflexivity.
+  Qed.
+
+  (* with a clean pool readPacket is the pure receive path, whichever buffers Get hands out *)
+  Lemma read_packet_pure pick1 pick2 p conn n : pool_inv p -> conn <> [] ->
+    path_recv packet unmarshal ws t conn = Ok n ->
+    snd (rd pick1 pick2 p conn) = Ok n /\ snd (fst (rd pick1 pick2 p conn)) = ROk.
+  Proof.
+    intros H Hc Hr. unfold read_packet, path_recv in *.
+    destruct (direct ws t) eqn:Ed.
+    { unfold direct in Ed. apply andb_prop in Ed. destruct Ed as [Ews Et].
+      destruct ws; [|discriminate]. destruct t; try discriminate.
+      cbn [tr_dec bind unwrap_stack fold_right] in Hr. rewrite Hr. split; reflexivity. }
+    destruct (pool_get_inv pick1 p H) as [Hb H1]. destruct (pool_get pick1 p) as [b p1]. cbn [fst snd] in *.
+    subst b. cbn [app].
+    destruct conn as [|c0 cr]; [congruence|]. cbn [is_nil]. set (conn := c0 :: cr) in *.
+    destruct (tr_dec t conn) as [y| |] eqn:Ed2; cbn [bind] in Hr; try discriminate.
+    assert (F : forall pl, (match (do plain <- unwrap_stack ws y; unmarshal plain) with
+                            | Ok n0 => (return_buffer y pl, ROk, Ok n0)
+                            | r => (return_buffer y pl, RLater, r)
+                            end) = (return_buffer y pl, ROk, Ok n)).
+    { intros pl. rewrite Hr. reflexivity. }
+    pose proof (tr_read_dec conn y Ed2) as Hrd.
+    destruct t as [|s|server ds].
+    - cbn [tr_dec] in Ed2. injection Ed2 as <-. rewrite F. split; reflexivity.
+    - destruct (pool_get_inv pick2 p1 H1) as [Ho _]. destruct (pool_get pick2 p1) as [o p2]. cbn [fst snd] in *.
+      subst o. rewrite Hrd. cbn [app]. rewrite F. split; reflexivity.
+    - destruct (pool_get_inv pick2 p1 H1) as [Ho _]. destruct (pool_get pick2 p1) as [o p2]. cbn [fst snd] in *.
+      subst o. rewrite Hrd. cbn [app]. rewrite F. split; reflexivity.
+  Qed.
+
+  (* histories: any sequence of sends (any packet, any pick) and receives (ANY bytes, any picks) *)
+  Inductive event : Type :=
+  | ESend (enc : list Z -> list Z) (pick : nat) (n : packet)
+  | ERecv (pick1 pick2 : nat) (conn : list Z).
+
+  Definition step (p : pool) (e : event) : pool :=
+    match e with
+    | ESend enc pick n => fst (wr enc pick p n)
+    | ERecv pick1 pick2 conn => fst (fst (rd pick1 pick2 p conn))
+    end.
+  Definition run (h : list event) (p : pool) : pool := fold_left step h p.
+
+  (* the invariant: after every history every pooled buffer is empty *)
+  Theorem pool_invariant : forall h p, pool_inv p -> pool_inv (run h p).
+  Proof.
+    unfold run. induction h as [|e h IH]; intros p H; [assumption|].
+    cbn [fold_left]. apply IH. destruct e; cbn [step].
+    - apply write_packet_inv. assumption.
+    - apply read_packet_inv. assumption.
+  Qed.
+End PoolPath.
+
+Section History.
+  Variables zlib_enc gzip_enc : list Z -> list Z.
+  Variables zlib_dec gzip_dec : list Z -> res (list Z).
+  Hypothesis zlib_ok : lossless {| w_enc := zlib_enc; w_dec := zlib_dec |}.
+  Hypothesis gzip_ok : lossless {| w_enc := gzip_enc; w_dec := gzip_dec |}.
+  Variable aes : list Z -> list Z -> list Z.
+  Hypothesis aes_bytes : forall key, block_fn_bytes (aes key).
+  Variable packet : Type.
+  Variable marshal : packet -> list Z.
+  Variable unmarshal : list Z -> res packet.
+  Hypothesis marshal_bytes : forall p, bytes (marshal p).
+  Hypothesis unmarshal_marshal : forall p, unmarshal (marshal p) = Ok p.
+
+  Notation W := (welem_w zlib_enc gzip_enc zlib_dec gzip_dec aes).
+
+  (* after ANY history of sends and of receives of arbitrary (damaged, cut, empty) input, with any
+     choice of pooled buffers, a packet written by writePacket is read back identically *)
+  Theorem history_roundtrip :
+    forall es t (h : list (event packet)), Forall welem_ok es ->
+    forall enc, (forall x, tr_sends t x (enc x)) ->
+    forall pick pick1 pick2 n,
+    let p := run packet marshal unmarshal (map W es) t h [] in
+    let sent := write_packet packet marshal (map W es) t enc pick p n in
+    snd sent <> [] ->
+    snd (read_packet packet unmarshal (map W es) t true pick1 pick2 (fst sent) (snd sent)) = Ok n.
+  Proof.
+    intros es t h Hes enc Henc pick pick1 pick2 n p sent Hne.
+    assert (Hp : pool_inv p) by (apply pool_invariant; constructor).
+    assert (Hp' : pool_inv (fst sent)) by (apply write_packet_inv; assumption).
+    assert (Hs : path_sends packet marshal (map W es) t n (snd sent)).
+    { unfold sent. rewrite write_packet_pure by assumption. unfold path_sends.
+      destruct (direct (map W es) t) eqn:Ed; [|apply Henc].
+      unfold direct in Ed. apply andb_prop in Ed. destruct Ed as [E1 E2].
+      destruct (map W es); [|discriminate]. destruct t; try discriminate. reflexivity. }
+    apply read_packet_pure; [assumption | assumption |].
+    apply (full_path_roundtrip zlib_enc gzip_enc zlib_dec gzip_dec zlib_ok gzip_ok aes aes_bytes
+             packet marshal unmarshal marshal_bytes unmarshal_marshal es t n (snd sent) Hes Hs).
+  Qed.
+End History.
+
+(* the same receive path with the transform's error path giving its output buffer back WITHOUT
+   clearing it (buffers.Put(o) instead of returnBuffer(o)): one DNS stream cut after a complete record,
+   then an ordinary round trip - the packet read differs from the packet written *)
+Definition nc_dom : list (list Z) := [[97]].
+Definition nc_good : list Z := dns_encode false [97] (fun _ _ => 0) (repeat 7 300).
+Definition nc_cut : list Z := firstn (length nc_good - 10) nc_good.
+Definition nc_read (p : pool) (conn : list Z) :=
+  read_packet (list Z) (fun w => Ok w) [] (TDns false nc_dom) false 0 0 p conn.
+
+Example unclear_put_breaks_later_roundtrip :
+  let '(p1, st1, _) := nc_read [] nc_cut in
+  st1 = RTransform /\ pool_clean p1 = false /\
+  let '(p2, w) := write_packet (list Z) (fun p => p) [] (TDns false nc_dom) (tr_enc0 (TDns false nc_dom)) 0 p1 [1; 2; 3] in
+  snd (nc_read p2 w) <> Ok [1; 2; 3].
+Proof. vm_compute. repeat split; discriminate. Qed.
